@@ -17,3 +17,37 @@ def dbc_check_duplicate_can_ids(self: "any", fcp: "ref:FcpV2", impl: "ref:Impl")
 def c_check_impl_valid_type(self: "any", fcp: "ref:FcpV2", extension: "ref:Impl") -> "result[none,any]":
     ensures(result.is_err() == unknown_struct(fcp, extension))
     ensures(result.is_ok() == (not unknown_struct(fcp, extension)))
+
+
+# ---------------------------------------------------------------- C14: the C plug-in's size rule
+@contract("fcp.specs.type:Type.get_length")
+def type_get_length(self: "ref:Type") -> "int":
+    note("the base class (inherited by enum, string and struct types) has no length")
+    raises(ValueError, iff=True)
+
+
+@contract("fcp.specs.type:DynamicArrayType.get_length")
+def dynarray_get_length(self: "ref:DynamicArrayType") -> "int":
+    raises(ValueError, iff=True)
+
+
+@contract("fcp.specs.type:OptionalType.get_length")
+def optional_get_length(self: "ref:OptionalType") -> "int":
+    raises(ValueError, iff=True)
+
+
+@contract("fcp.specs.type:ArrayType.get_length")
+def array_get_length(self: "ref:ArrayType") -> "int":
+    requires(unfold(has_decl_bits(self)))
+    ensures(result == unfold(decl_bits(self)))
+
+
+@contract("fcp_can_c.generator:Generator.register_checks.check_impl_size")
+def c_check_impl_size(self: "any", fcp: "ref:FcpV2", extension: "ref:Impl") -> "result[none,any]":
+    note("C14: for structs made of numeric fields and arrays of them, the rule rejects exactly the bindings whose declared size "
+         "exceeds 64 bits; for any other field kind get_length() raises (known finding KF-F16), which the precondition excludes")
+    requires(has_struct(fcp, extension.type))
+    requires(forall(0, len(struct_of(fcp, extension.type).fields), lambda k: has_decl_bits(struct_of(fcp, extension.type).fields[k].type)))
+    ensures(result.is_err() == (decl_sum(struct_of(fcp, extension.type).fields, len(struct_of(fcp, extension.type).fields)) > 64))
+    ensures(result.is_ok() == (decl_sum(struct_of(fcp, extension.type).fields, len(struct_of(fcp, extension.type).fields)) <= 64))
+    lemma_before("sum", sum_pointwise(ARG0, struct_of(fcp, extension.type).fields, len(struct_of(fcp, extension.type).fields)))
